@@ -1,6 +1,174 @@
-From ZV Require Import Lib.Base Lib.GoSearch Model.Lines.
-(* first version: pipeline bring-up; the theorems follow *)
+(** C03 — match locations and context agree with the file content.
+    Model: coq/Model/Lines.v (contentprovider.go line / chunk / column arithmetic, breakMatchesOnNewlines).
+    Vocabulary (Proofs/LinesBasic.v): [lines c] = the lines of c, each with its terminating newline, the
+    text after the last newline being the last (possibly empty) line; [count_nl]; [after_nl c k] = length
+    of the first k lines; [lines_between c a b] = concatenation of lines a..b-1 (1-based, clamped). *)
+From ZV Require Import Lib.Base Lib.GoSearch Lib.RuneCount Model.Lines
+  Proofs.LinesBasic Proofs.RuneCountProofs Proofs.LinesMatch Proofs.LinesChunk.
+From Coq Require Import Sorting.Sorted.
+
+(** sort.Search as used by atOffset (and runeOffsetMap.lookup): least index of a monotone predicate *)
 Theorem C03_go_search_is_least_index : forall n f,
   (forall a b, a <= b -> f a = true -> f b = true) -> go_search n f = first_true n f.
 Proof. exact go_search_first_true. Qed.
 Print Assumptions C03_go_search_is_least_index.
+
+(** atOffset_spec: line number = 1 + number of newlines strictly before the offset, for every content
+    and every offset (also past the end): an offset ON a newline belongs to the line that newline ends *)
+Theorem C03_atOffset_spec : forall c off,
+  at_offset (newlines_of c) off = (Z.of_nat (count_nl (firstn off c)) + 1)%Z.
+Proof. exact at_offset_spec. Qed.
+Print Assumptions C03_atOffset_spec.
+
+Theorem C03_atOffset_in_line : forall c off, off < length c ->
+  let n := at_offset (newlines_of c) off in
+  line_start (newlines_of c) n <= off < line_start (newlines_of c) (n + 1).
+Proof. exact at_offset_in_line. Qed.
+Print Assumptions C03_atOffset_in_line.
+
+(** lineStart for every (also non-positive / too large) line number: total length of the preceding lines,
+    hence clamped to [0, |c|] and monotone *)
+Theorem C03_lineStart_spec : forall c ln,
+  line_start (newlines_of c) ln = length (concat (firstn (Z.to_nat (ln - 1)) (lines c))) /\
+  line_start (newlines_of c) ln <= length c.
+Proof. intros c ln. split; [rewrite line_start_spec; apply after_nl_lines|apply line_start_clamped]. Qed.
+Print Assumptions C03_lineStart_spec.
+
+(** getLines never panics and returns exactly the whole lines [low, high) that exist *)
+Theorem C03_getLines_whole_lines : forall c low high,
+  get_lines (newlines_of c) c low high =
+  Ok (concat (slice (lines c) (Z.to_nat (low - 1)) (Z.to_nat (high - 1)))).
+Proof. exact get_lines_spec. Qed.
+Print Assumptions C03_getLines_whole_lines.
+
+(** line mode (fillMatches on content candidates that are in bounds, sorted and non-overlapping — what
+    gatherMatches delivers, C02): the call succeeds; each LineMatch is a line of the file: Line is exactly
+    line LineNumber = content[LineStart:LineEnd), LineStart = bytes before it, Before/After are exactly the
+    ctx neighbouring lines (fewer only at the file boundaries), fragments lie inside the line with
+    LineOffset = Offset - LineStart and belong to that line; every line is reported at most once (line numbers
+    strictly increase); every fragment is a non-empty newline-free part of a content candidate *)
+Theorem C03_line_match_fields : forall c ctx name ms, (0 <= ctx)%Z ->
+  filter is_content ms <> [] ->
+  Forall (fun m => c_end m <= length c) (filter is_content ms) -> disjoint_sorted (filter is_content ms) ->
+  exists res, fill_matches (newlines_of c) c name ctx ms = Ok res /\
+    Forall (lm_ok c ctx) res /\
+    StronglySorted (fun a b => (lm_num a < lm_num b)%Z) res /\
+    Forall (fun lm => Forall (fun f => exists m, In m ms /\ c_fn m = false /\ 0 < f_len f /\
+                                        c_off m <= f_off f /\ f_off f + f_len f <= c_end m) (lm_frags lm)) res.
+Proof. exact fill_matches_content. Qed.
+Print Assumptions C03_line_match_fields.
+
+(** fillContentMatches itself (no newline splitting): fragments are exactly the candidates, in order *)
+Theorem C03_line_fragments_are_candidates : forall c ctx, (0 <= ctx)%Z -> forall ms,
+  Forall (piece_ok c) ms -> off_sorted ms ->
+  exists res, fill_content_matches (newlines_of c) c ctx ms = Ok res /\
+    Forall (lm_ok c ctx) res /\
+    flat_map (fun lm => map frag_cand (lm_frags lm)) res = map cand_key ms.
+Proof.
+  intros c ctx Hctx ms H1 H2. unfold fill_content_matches.
+  destruct (fill_lines_correct c ctx Hctx (length ms) ms (le_n _) H1 H2) as [res [E [A [_ [_ B]]]]].
+  exists res. auto.
+Qed.
+Print Assumptions C03_line_fragments_are_candidates.
+
+(** a file-name match reports the file name as its text *)
+Theorem C03_filename_match_text : forall c ctx name ms, filter is_content ms = [] ->
+  exists lm, fill_matches (newlines_of c) c name ctx ms = Ok [lm] /\ lm_line lm = name /\ lm_fn lm = true /\
+             map frag_cand (lm_frags lm) = map cand_key ms.
+Proof.
+  intros c ctx name ms H. rewrite (fill_matches_filename c ctx name ms H). eexists. split; [reflexivity|].
+  simpl. repeat split; auto. rewrite map_map. reflexivity.
+Qed.
+Print Assumptions C03_filename_match_text.
+
+(** chunk mode: for content candidates sorted as by gatherMatches, in bounds and on rune boundaries,
+    fillContentChunkMatches succeeds and returns exactly [chunk_spec] of every chunk: Content = the whole lines
+    max(first-ctx,1) .. last+ctx, ContentStart = (bytes before them, that line, column 1), each range with the
+    line of its first byte / of its last byte and columns = rune count from that line's start + 1.  The chunks
+    partition the candidates in order, satisfy [chunk_inv], and consecutive chunks are separated by more than
+    2*ctx lines (the merge rule) *)
+Theorem C03_chunk_matches : forall c ctx, (0 <= ctx)%Z -> forall ms,
+  Forall (fun m => c_fn m = false) ms -> is_sorted_by cand_less ms = true ->
+  Forall (chunk_cand_ok c) ms ->
+  let cs := chunk_candidates (newlines_of c) ctx ms in
+  fill_content_chunk_matches (newlines_of c) c ctx ms = Ok (map (chunk_spec c ctx) cs) /\
+  Forall (chunk_inv c) cs /\ separated_fwd ctx cs /\ flat_map ch_cands cs = ms.
+Proof. intros c ctx _. exact (fill_content_chunk_matches_spec c ctx). Qed.
+Print Assumptions C03_chunk_matches.
+
+(** every range of a chunk lies inside the chunk's content (byte-wise) *)
+Theorem C03_chunk_contains_ranges : forall c ctx, (0 <= ctx)%Z -> forall ch, chunk_inv c ch ->
+  Forall (fun x => l_off (cm_start (chunk_spec c ctx ch)) <= c_off x /\ c_end x <= cm_end (chunk_spec c ctx ch))
+         (ch_cands ch).
+Proof. exact chunk_contains_ranges. Qed.
+Print Assumptions C03_chunk_contains_ranges.
+
+(** the contents of consecutive chunks are ordered and never overlap *)
+Theorem C03_chunks_ordered_disjoint : forall c ctx, (0 <= ctx)%Z -> forall c1 c2, chunk_inv c c1 ->
+  (ch_last c1 + ctx < ch_first c2 - ctx)%Z ->
+  cm_end (chunk_spec c ctx c1) <= l_off (cm_start (chunk_spec c ctx c2)).
+Proof. exact chunks_ordered_disjoint. Qed.
+Print Assumptions C03_chunks_ordered_disjoint.
+
+(** columnHelper: for EVERY sequence of calls (increasing or not) whose offsets are rune boundaries of
+    their lines, each answer is the fresh rune count from the line start + 1 *)
+Theorem C03_column_cache_correct : forall data calls,
+  Forall (col_call_ok data) calls ->
+  col_seq data col_init calls = Ok (map (fun c => S (rune_count (slice data (fst c) (snd c)))) calls).
+Proof. intros. apply col_seq_correct; auto. apply col_good_init. Qed.
+Print Assumptions C03_column_cache_correct.
+
+(** ... and the boundary hypothesis is necessary: after a mid-rune offset the cache miscounts
+    (not reachable from Search: match offsets are rune boundaries) *)
+Theorem C03_column_cache_any_offset_refuted : exists data calls,
+  Forall (fun c => fst c <= snd c /\ snd c <= length data) calls /\
+  col_seq data col_init calls <> Ok (map (fun c => S (rune_count (slice data (fst c) (snd c)))) calls).
+Proof.
+  exists [195; 169]%N, [(0, 1); (0, 2)]. split.
+  - repeat constructor.
+  - vm_compute. discriminate.
+Qed.
+Print Assumptions C03_column_cache_any_offset_refuted.
+
+(** ---- non-vacuity: concrete inputs satisfying the hypotheses *)
+Lemma boundary_step' : forall b0 r k k', k' = rune_width b0 r + k ->
+  boundary (skipn (rune_width b0 r - 1) r) k -> boundary (b0 :: r) k'.
+Proof. intros; subst; now constructor. Qed.
+Ltac solve_bnd :=
+  simpl; first [ apply bd_zero
+               | apply (boundary_step' _ _ 0); [reflexivity|solve_bnd]
+               | apply (boundary_step' _ _ 1); [reflexivity|solve_bnd]
+               | apply (boundary_step' _ _ 2); [reflexivity|solve_bnd]
+               | apply (boundary_step' _ _ 3); [reflexivity|solve_bnd] ].
+Definition ex_c : list N := [97; 98; 10; 195; 169; 120; 10; 10; 121; 122]%N.   (* "ab\néx\n\nyz" *)
+Definition ex_ms : list cand :=
+  [ {| c_fn := false; c_off := 1; c_sz := 4 |};      (* "b\né" spans lines 1-2 *)
+    {| c_fn := false; c_off := 5; c_sz := 1 |};      (* "x" *)
+    {| c_fn := false; c_off := 8; c_sz := 2 |} ].    (* "yz" on the last, unterminated line *)
+
+Example ex_lines : lines ex_c = [[97; 98; 10]; [195; 169; 120; 10]; [10]; [121; 122]]%N.
+Proof. reflexivity. Qed.
+Example ex_hyp_line : filter is_content ex_ms <> [] /\
+  Forall (fun m => c_end m <= length ex_c) (filter is_content ex_ms) /\ disjoint_sorted (filter is_content ex_ms).
+Proof. split; [discriminate|]. split; repeat constructor. Qed.
+Example ex_line_result :
+  option_map (map lm_out) (match fill_matches (newlines_of ex_c) ex_c [102]%N 1%Z ex_ms with Ok r => Some r | _ => None end) =
+  Some [ ([97; 98; 10], 0, 3, 1%Z, [], [195; 169; 120; 10], false, [(1%Z, 1, 1)]);
+         ([195; 169; 120; 10], 3, 7, 2%Z, [97; 98; 10], [10], false, [(0%Z, 3, 2); (2%Z, 5, 1)]);
+         ([121; 122], 8, 10, 4%Z, [10], [], false, [(0%Z, 8, 2)]) ]%N.
+Proof. vm_compute. reflexivity. Qed.
+Example ex_hyp_chunk : Forall (fun m => c_fn m = false) ex_ms /\ is_sorted_by cand_less ex_ms = true /\
+  Forall (chunk_cand_ok ex_c) ex_ms.
+Proof.
+  split; [repeat constructor|]. split; [reflexivity|].
+  repeat constructor; simpl; try lia; solve_bnd.
+Qed.
+Example ex_chunk_result :
+  option_map (map cm_out) (match fill_content_chunk_matches (newlines_of ex_c) ex_c 0%Z ex_ms with Ok r => Some r | _ => None end) =
+  Some [ ([97; 98; 10; 195; 169; 120; 10], (0, 1%Z, 1), [((1, 1%Z, 2), (5, 2%Z, 2)); ((5, 2%Z, 2), (6, 2%Z, 3))], false);
+         ([121; 122], (8, 4%Z, 1), [((8, 4%Z, 1), (10, 4%Z, 3))], false) ]%N.
+Proof. vm_compute. reflexivity. Qed.
+Example ex_col_calls : Forall (col_call_ok ex_c) [(3, 5); (3, 6); (0, 1)].
+Proof.
+  repeat constructor; simpl; try lia; solve_bnd.
+Qed.
